@@ -1,4 +1,5 @@
 import AdfObdd.Parser7
+import AdfObdd.CliModesProofs
 /-! # C08 — the parser accepts the documented syntax faithfully and rejects malformed text whole
 
 Model (`ParserProofs`, `Parser2`, `Parser4`, `Parser6`; namespace `ParserM`): the nom combinators of
@@ -135,6 +136,23 @@ theorem reject_wrong_arity (t : List Char) (h : arityOK t = false) : parse t = n
 /-- **Unpaired quote.** A text with an odd number of `"` is rejected. -/
 theorem reject_odd_quotes (t : List Char) (h : t.count '"' % 2 = 1) : parse t = none :=
   reject_of t (t.count '"' % 2 = 0) (fun _ _ b => b.even_quotes) (by omega)
+
+/-! ## Rejected text: the CLI produces no answer
+
+`CliM.runText` (CliModes.lean) is the binary on the TEXT of the file (all three arms). The web
+service's counterpart is in C16. -/
+
+/-- **neither … produce an answer, CLI part**: a text the parser refuses makes every arm of the
+binary, with every flag, exit with the non-zero status 101 and print nothing -/
+theorem cli_no_answer_for_rejected_text {T : Type} (W : CliM.World T) (fuel : Nat) (i : CliM.Inv)
+    (t : List Char) (h : parse t = none) :
+    CliM.runText W fuel i t = CliM.rejected ∧ CliM.rejected.exit ≠ 0 ∧ CliM.rejected.stdout = [] :=
+  ⟨CliMP.runText_rejects_unparsed W fuel i t h, by decide, rfl⟩
+
+/-- instances: each rejection test of this file implies the CLI prints nothing -/
+theorem cli_no_answer_unbalanced {T : Type} (W : CliM.World T) (fuel : Nat) (i : CliM.Inv) (t : List Char)
+    (h : balanced t = false) : CliM.runText W fuel i t = CliM.rejected :=
+  (cli_no_answer_for_rejected_text W fuel i t (reject_unbalanced t h)).1
 
 /-! ## Non-vacuity -/
 
